@@ -143,14 +143,14 @@ def uncOut (rb : RState) (seq' : SeqState) (kind : ChunkKind) (h0 : Hist) (body 
 
 /-- at a chunk boundary: the ring is drained, `D` is everything decoded so far -/
 def Bnd (cap : Nat) (inp : ByteArray) (off : Nat) (B : RState × Status) (r : R2) (D : ByteArray) : Prop :=
-  r.inp = inp ∧ ∃ h : Hist,
+  r.srcErr = false ∧ r.inp = inp ∧ ∃ h : Hist,
     r.l.dict.RelB ⟨h.out.data.toList.drop off, D.size⟩ cap (h.dictStart - off) ∧ off ≤ h.dictStart ∧
     h.dictStart ≤ h.out.size ∧ h.cap = cap ∧ D.data.toList = h.out.data.toList.drop off ∧
     (KB B → ∃ rb, GTr B rb ∧ Link inp r rb ∧ rb.pos = r.pos ∧ rb.h = h)
 
 /-- inside an LZMA chunk -/
 def CLz (cap : Nat) (inp : ByteArray) (off : Nat) (B : RState × Status) (r : R2) (D : ByteArray) : Prop :=
-  r.cur = .lz ∧ r.inp = inp ∧ r.hasDec = true ∧
+  r.srcErr = false ∧ r.cur = .lz ∧ r.inp = inp ∧ r.hasDec = true ∧
   ∃ (p : Props) (usize startB : Nat) (R : SegRes),
     GI p (some usize) cap startB off R r.l D ∧
     (KB B → ∃ rb seq' kind csize hp body n, GTr B rb ∧ rb.inp = inp ∧
@@ -160,7 +160,7 @@ def CLz (cap : Nat) (inp : ByteArray) (off : Nat) (B : RState × Status) (r : R2
 
 /-- inside an uncompressed chunk -/
 def CUnc (cap : Nat) (inp : ByteArray) (off : Nat) (B : RState × Status) (r : R2) (D : ByteArray) : Prop :=
-  r.cur = .unc ∧ r.inp = inp ∧ r.uErr = none ∧
+  r.srcErr = false ∧ r.cur = .unc ∧ r.inp = inp ∧ r.uErr = none ∧
   ∃ (h0 : Hist) (body usize : Nat),
     r.l.dict.RelB ⟨(h0.out ++ inp.extract body r.pos).data.toList.drop off, D.size⟩ cap (h0.dictStart - off) ∧
     off ≤ h0.dictStart ∧ h0.dictStart ≤ h0.out.size ∧ h0.cap = cap ∧
@@ -341,7 +341,7 @@ def chunkBody (r : RState) (kind : ChunkKind) (hp : Option Props) (seq' : SeqSta
       match Dec.init (bytesToList inp body (body + n)) with
       | none =>
         .done { r with pos := body, seq := seq', h := h, props := some p }
-          (if n < 5 then .unexpectedEOF else .err "range decoder init")
+          (initStatus (bytesToList inp body (body + n)))
       | some rd =>
         lzOut r seq' kind usize csize hp p body n
           (decSegment p (some usize) h.out.size false (usize + 2) { s := s, tbl := tbl, rd := rd, h := h })
@@ -394,19 +394,20 @@ def startBody (r0 : R2) (kind : ChunkKind) (hp : Option Props) (cs' : Nat) : R2 
     let p : Props := propsOr hp r.l.p
     let fresh := !r.hasDec || decide (kind ≠ .l)
     match Dec.init seg with
-    | none => (r, if n < 5 then .err .unexpectedEOF else .err (.other "range decoder init"))
+    | none => (r, .err (initErr seg (r0.srcErr && decide (n < csize))))
     | some rd =>
       let l : LSt :=
         { r.l with p := p, s := if fresh then {} else r.l.s, tbl := if fresh then initTable p.lc p.lp else r.l.tbl,
-                   rd := rd, start := r.l.dict.head, size := some usize, eos := false }
+                   rd := rd, start := r.l.dict.head, size := some usize, eos := false,
+                   srcEnd := r0.srcErr && decide (n < csize) }
       ({ r with l := l, hasDec := true, segEnd := body + n, cur := .lz }, .ok)
 
 theorem startChunk_eq (r : R2) : startChunk r =
-    if r.pos ≥ r.inp.size then ({ r with cur := .none }, .err .unexpectedEOF) else
+    if r.pos ≥ r.inp.size then ({ r with cur := .none }, r.endE) else
     match Spec.ctrl (get r.inp r.pos) with
     | none => ({ r with cur := .none, pos := r.pos + 1 }, .err (.other "unsupported chunk header byte"))
     | some kind =>
-      if r.pos + hlenOf kind > r.inp.size then ({ r with cur := .none, pos := r.inp.size }, .err .unexpectedEOF) else
+      if r.pos + hlenOf kind > r.inp.size then ({ r with cur := .none, pos := r.inp.size }, r.endE) else
       match hpropsOf r.inp r.pos kind with
       | none => ({ r with cur := .none, pos := r.pos + hlenOf kind }, .err (.other "invalid properties code"))
       | some hp =>
@@ -446,10 +447,19 @@ theorem whole_take (W : List UInt8) (D : ByteArray) (h : D.data.toList = W) : D.
 
 variable {cap : Nat} {inp : ByteArray} {off : Nat} {B : RState × Status}
 
+theorem endE_ne_eof (r : R2) : r.endE ≠ .eof := by
+  unfold R2.endE; split_ifs <;> (intro h; cases h)
+
+theorem endE_ne_ok (r : R2) : r.endE ≠ .ok := by
+  unfold R2.endE; split_ifs <;> (intro h; cases h)
+
+theorem endE_plain {r : R2} (h : r.srcErr = false) : r.endE = .err .unexpectedEOF := by
+  unfold R2.endE; rw [h]; rfl
+
 theorem startChunk_eof_pos (r : R2) (h : (startChunk r).2 = .eof) : r.pos ≤ (startChunk r).1.srcPos := by
   rw [startChunk_eq] at h ⊢
   by_cases c1 : r.pos ≥ r.inp.size
-  · rw [if_pos c1] at h; cases h
+  · rw [if_pos c1] at h; exact absurd h (endE_ne_eof _)
   rw [if_neg c1] at h ⊢
   cases hk : Spec.ctrl (Lzma2.get r.inp r.pos) with
   | none => rw [hk] at h; cases h
@@ -457,7 +467,7 @@ theorem startChunk_eof_pos (r : R2) (h : (startChunk r).2 = .eof) : r.pos ≤ (s
     rw [hk] at h
     simp only at h ⊢
     by_cases c2 : r.pos + hlenOf kind > r.inp.size
-    · rw [if_pos c2] at h; cases h
+    · rw [if_pos c2] at h; exact absurd h (endE_ne_eof _)
     rw [if_neg c2] at h ⊢
     cases hhp : hpropsOf r.inp r.pos kind with
     | none => rw [hhp] at h; cases h
@@ -482,8 +492,7 @@ theorem startChunk_eof_pos (r : R2) (h : (startChunk r).2 = .eof) : r.pos ≤ (s
           · rw [if_pos cunc] at h; cases h
           · rw [if_neg cunc] at h
             split at h
-            · simp only at h
-              split_ifs at h
+            · cases h
             · cases h
 
 /-- a header that both readers reject: what it means for the batch run -/
@@ -579,13 +588,35 @@ theorem nb_ueof : NotBad (.err .unexpectedEOF) := by
 theorem nb_other (w : String) : NotBad (.err (.other w)) := by
   refine ⟨?_, ?_, ?_⟩ <;> intro h <;> cases h
 
+theorem initStatus_cases (seg : List Nat) :
+    initStatus seg = .unexpectedEOF ∨ initStatus seg = .err "range decoder init" := by
+  unfold initStatus
+  cases seg with
+  | nil => exact Or.inl rfl
+  | cons b0 t => simp only; split_ifs <;> simp
+
+/-- `newRangeDecoder` fails on a source that ends with io.EOF: the batch reader's status -/
+theorem initErr_status (seg : List Nat) : statusOf (initErr seg false) = initStatus seg := by
+  unfold initErr initStatus
+  cases seg with
+  | nil => rfl
+  | cons b0 t =>
+    simp only [Bool.false_eq_true, if_false]
+    split_ifs <;> rfl
+
+theorem initErr_notBad (seg : List Nat) (b : Bool) : NotBad (.err (initErr seg b)) := by
+  unfold initErr
+  cases seg with
+  | nil => simp only; split_ifs <;> (refine ⟨?_, ?_, ?_⟩ <;> intro h <;> cases h)
+  | cons b0 t => simp only; split_ifs <;> (refine ⟨?_, ?_, ?_⟩ <;> intro h <;> cases h)
+
 set_option maxRecDepth 8000 in
 theorem startChunk_spec {r : R2} {D : ByteArray} (hb : Bnd cap inp off B r D) :
     StartPost cap inp off B r D (startChunk r) := by
-  obtain ⟨hinp, h, hrel, hol, hdl, hcapH, hD, hKB⟩ := hb
+  obtain ⟨hsrc, hinp, h, hrel, hol, hdl, hcapH, hD, hKB⟩ := hb
   rw [startChunk_eq]
   by_cases c1 : r.pos ≥ r.inp.size
-  · rw [if_pos c1]
+  · rw [if_pos c1, endE_plain hsrc]
     refine ⟨(fun hh => by cases hh), fun _ => ?_⟩
     refine fin_done hD hKB nb_ueof (fun rb hl hp hh => ⟨rb, .unexpectedEOF, ?_, by rw [hh], rfl⟩)
     rw [readChunk_eq, if_pos (by rw [hl.inp, hp, ← hinp]; exact c1)]
@@ -600,7 +631,7 @@ theorem startChunk_spec {r : R2} {D : ByteArray} (hb : Bnd cap inp off B r D) :
   | some kind =>
     simp only
     by_cases c2 : r.pos + hlenOf kind > r.inp.size
-    · rw [if_pos c2]
+    · rw [if_pos c2, endE_plain hsrc]
       refine ⟨(fun hh => by cases hh), fun _ => ?_⟩
       refine fin_done hD hKB nb_ueof (fun rb hl hp hh => ⟨rb, .unexpectedEOF, ?_, by rw [hh], rfl⟩)
       rw [readChunk_eq, if_neg (by rw [hl.inp, hp, ← hinp]; exact c1)]
@@ -681,7 +712,7 @@ theorem startChunk_spec {r : R2} {D : ByteArray} (hb : Bnd cap inp off B r D) :
             have hex : ((if kind = .ud ∨ kind = .lrnd then h.reset else h).out ++
                 inp.extract (r.pos + hlenOf kind) (r.pos + hlenOf kind)).data.toList = h.out.data.toList := by
               rw [ByteArray.data_append, Array.toList_append, extract_self_empty, List.append_nil, q5]
-            refine ⟨rfl, hinp, rfl, (if kind = .ud ∨ kind = .lrnd then h.reset else h), r.pos + hlenOf kind,
+            refine ⟨hsrc, rfl, hinp, rfl, (if kind = .ud ∨ kind = .lrnd then h.reset else h), r.pos + hlenOf kind,
               Lzma2.get r.inp (r.pos + 1) * 256 + Lzma2.get r.inp (r.pos + 2) + 1, ?_, q2, q3, q4, ?_,
               Nat.le_refl _, (by show r.pos + hlenOf kind ≤ inp.size; rw [← hinp]; omega), ?_, (fun hh => by cases hh), ?_⟩
             · simp only [hex]
@@ -726,7 +757,7 @@ theorem startChunk_spec {r : R2} {D : ByteArray} (hb : Bnd cap inp off B r D) :
                 .done { rb with pos := r.pos + hlenOf kind, seq := seq',
                                 h := (if kind = .ud ∨ kind = .lrnd then h.reset else h),
                                 props := some (propsOr hp r.l.p) }
-                  (if n < 5 then .unexpectedEOF else .err "range decoder init")
+                  (initStatus (bytesToList r.inp (r.pos + hlenOf kind) (r.pos + hlenOf kind + n)))
               | some rd =>
                 lzOut rb seq' kind usize csize hp (propsOr hp r.l.p)
                   (r.pos + hlenOf kind) n
@@ -756,24 +787,13 @@ theorem startChunk_spec {r : R2} {D : ByteArray} (hb : Bnd cap inp off B r D) :
           rw [hus', hcs, hnn]
         cases hdi : Dec.init (bytesToList r.inp (r.pos + hlenOf kind) (r.pos + hlenOf kind + n)) with
         | none =>
-          simp only
-          by_cases hn5 : n < 5
-          · rw [if_pos hn5]
-            refine ⟨(fun hh => by cases hh), fun _ => ?_⟩
-            refine fin_done hD hKB nb_ueof (fun rb hl hp' hh => ?_)
-            obtain ⟨seq', _, _, _, _, e⟩ := hbatch rb hl hp' hh
-            rw [hdi] at e
-            simp only at e
-            rw [if_pos hn5] at e
-            exact ⟨_, _, e, by simp only [q5], rfl⟩
-          · rw [if_neg hn5]
-            refine ⟨(fun hh => by cases hh), fun _ => ?_⟩
-            refine fin_done hD hKB (nb_other _) (fun rb hl hp' hh => ?_)
-            obtain ⟨seq', _, _, _, _, e⟩ := hbatch rb hl hp' hh
-            rw [hdi] at e
-            simp only at e
-            rw [if_neg hn5] at e
-            exact ⟨_, _, e, by simp only [q5], rfl⟩
+          simp only [hsrc, Bool.false_and]
+          refine ⟨(fun hh => by cases hh), fun _ => ?_⟩
+          refine fin_done hD hKB (initErr_notBad _ _) (fun rb hl hp' hh => ?_)
+          obtain ⟨seq', _, _, _, _, e⟩ := hbatch rb hl hp' hh
+          rw [hdi] at e
+          simp only at e
+          exact ⟨_, _, e, by simp only [q5], by rw [initErr_status]⟩
         | some rd =>
           simp only
           have hlen5 := init_len _ _ hdi
@@ -784,13 +804,14 @@ theorem startChunk_spec {r : R2} {D : ByteArray} (hb : Bnd cap inp off B r D) :
                  if (!r.hasDec || decide (kind ≠ .l)) = true then
                    initTable (propsOr hp r.l.p).lc (propsOr hp r.l.p).lp else r.l.tbl,
                  rd, (if kind = .ud ∨ kind = .lrnd then h.reset else h), #[]⟩ := ⟨_, rfl⟩
-            refine ⟨rfl, hinp, rfl, propsOr hp r.l.p, usize,
+            refine ⟨hsrc, rfl, hinp, rfl, propsOr hp r.l.p, usize,
               (if kind = .ud ∨ kind = .lrnd then h.reset else h).out.size,
               decSegment (propsOr hp r.l.p) (some usize)
                 (if kind = .ud ∨ kind = .lrnd then h.reset else h).out.size false (usize + 2) d0, ?_, ?_⟩
             · refine ⟨d0, ?_, ?_, ?_, (fun hf => by cases hf)⟩
               · rw [hd0]
-                refine ⟨rfl, rfl, rfl, rfl, ?_, rfl, q2, q3, q1, q4⟩
+                refine ⟨rfl, rfl, rfl, rfl, ?_, rfl, q2, q3, q1, q4,
+                  (by show (r.srcErr && _) = false; rw [hsrc]; rfl)⟩
                 show (if kind = .ud ∨ kind = .lrnd then { r.l.dict with head := 0 } else r.l.dict).head +
                   (if kind = .ud ∨ kind = .lrnd then h.reset else h).dictStart =
                   (if kind = .ud ∨ kind = .lrnd then h.reset else h).out.size
@@ -837,7 +858,7 @@ theorem extract_append (a : ByteArray) (x y z : Nat) (h1 : x ≤ y) (h2 : y ≤ 
     rw [List.drop_append_of_le_length (by rw [List.length_take]; omega)]
   · rw [List.take_of_length_le (by omega), List.drop_of_length_le (by omega : L.length ≤ y), List.append_nil]
 
-theorem ufill_eq (r : R2) : ufill r =
+theorem ufill_eq (r : R2) (hs : r.srcErr = false) : ufill r =
     if r.uEof then (r, if r.uN ≠ 0 then .err .unexpectedEOF else .eof)
     else
       let want := r.l.dict.buf.available
@@ -854,7 +875,7 @@ theorem ufill_eq (r : R2) : ufill r =
     simp only [Bool.not_true, Bool.false_eq_true, if_false, if_true]
     split_ifs <;> simp_all
   | false =>
-    simp only [Bool.not_false, if_true, Bool.false_eq_true, if_false]
+    simp only [Bool.not_false, if_true, Bool.false_eq_true, if_false, hs, false_and]
     split_ifs <;> simp_all
 
 def UfillPost (cap : Nat) (inp : ByteArray) (off : Nat) (B : RState × Status) (r : R2) (D : ByteArray)
@@ -887,8 +908,8 @@ theorem unc_short {r : R2} {D : ByteArray} {h0 : Hist} {body usize : Nat}
 
 theorem ufill_spec {r : R2} {D : ByteArray} (hc : CUnc cap inp off B r D) :
     UfillPost cap inp off B r D (ufill r) := by
-  obtain ⟨hcur, hinp, hue, h0, body, usize, hrel, hol, hdl, hcapH, hD, hb, hps, hus, huE, hKB⟩ := hc
-  rw [ufill_eq]
+  obtain ⟨hsrc, hcur, hinp, hue, h0, body, usize, hrel, hol, hdl, hcapH, hD, hb, hps, hus, huE, hKB⟩ := hc
+  rw [ufill_eq _ hsrc]
   by_cases hE : r.uEof = true
   · rw [if_pos hE]
     by_cases hun : r.uN ≠ 0
@@ -899,7 +920,7 @@ theorem ufill_spec {r : R2} {D : ByteArray} (hc : CUnc cap inp off B r D) :
       exact unc_short hD hb hps' hus hun hKB r
     · rw [if_neg hun]
       refine ⟨rfl, rfl, Nat.le_refl _, (fun h => by cases h), fun _ => ⟨?_, by simpa using hun, rfl⟩, (fun e he => by cases he)⟩
-      exact ⟨hcur, hinp, hue, h0, body, usize, hrel, hol, hdl, hcapH, hD, hb, hps, hus, huE, hKB⟩
+      exact ⟨hsrc, hcur, hinp, hue, h0, body, usize, hrel, hol, hdl, hcapH, hD, hb, hps, hus, huE, hKB⟩
   rw [if_neg hE]
   simp only
   -- the piece copied into the ring
@@ -936,7 +957,7 @@ theorem ufill_spec {r : R2} {D : ByteArray} (hc : CUnc cap inp off B r D) :
       CUnc cap inp off B r1 D := by
     intro ue r1 hue' hr1
     subst hr1
-    refine ⟨hcur, hinp, hue, h0, body, usize, ?_, hol, hdl, hcapH, hD', by simp only; omega, hk3,
+    refine ⟨hsrc, hcur, hinp, hue, h0, body, usize, ?_, hol, hdl, hcapH, hD', by simp only; omega, hk3,
       by simp only; omega, hue', ?_⟩
     · simp only
       rw [hnew]; exact w2
@@ -992,12 +1013,12 @@ def ChunkPost (cap : Nat) (inp : ByteArray) (off : Nat) (B : RState × Status) (
 /-- the uncompressed chunk is complete and the ring drained: the next chunk boundary -/
 theorem unc_end {r : R2} {D : ByteArray} (hc : CUnc cap inp off B r D) (hu : r.uN = 0)
     (hb0 : r.l.dict.buf.buffered = 0) (r' : R2) (h1 : r'.inp = r.inp) (h2 : r'.pos = r.pos) (h3 : r'.l = r.l)
-    (h4 : r'.cstate = r.cstate) (h5 : r'.hasDec = r.hasDec) : Bnd cap inp off B r' D := by
-  obtain ⟨hcur, hinp, hue, h0, body, usize, hrel, hol, hdl, hcapH, hD, hb, hps, hus, huE, hKB⟩ := hc
+    (h4 : r'.cstate = r.cstate) (h5 : r'.hasDec = r.hasDec) (h6 : r'.srcErr = r.srcErr) : Bnd cap inp off B r' D := by
+  obtain ⟨hsrc, hcur, hinp, hue, h0, body, usize, hrel, hol, hdl, hcapH, hD, hb, hps, hus, huE, hKB⟩ := hc
   have hbuf := buffered_eq _ _ _ hrel.buf
   have hrle := hrel.buf.rle
   simp only at hbuf hrle
-  refine ⟨by rw [h1]; exact hinp, { h0 with out := h0.out ++ inp.extract body r.pos }, by rw [h3]; exact hrel, hol, ?_,
+  refine ⟨by rw [h6]; exact hsrc, by rw [h1]; exact hinp, { h0 with out := h0.out ++ inp.extract body r.pos }, by rw [h3]; exact hrel, hol, ?_,
     hcapH, ?_, ?_⟩
   · simp only [ByteArray.size_append]; omega
   · rw [hD, List.take_of_length_le]
@@ -1032,7 +1053,7 @@ theorem uread_spec (len : Nat) (D0 : ByteArray) : ∀ (fuel : Nat) (r : R2) (acc
   | succ fuel ih =>
     intro r acc hc hlt hn
     have hc0 := hc
-    obtain ⟨hcur, hinp, hue, h0, body, usize, hrel, hol, hdl, hcapH, hD, hb, hps, hus, huE, hKB⟩ := hc
+    obtain ⟨hsrc, hcur, hinp, hue, h0, body, usize, hrel, hol, hdl, hcapH, hD, hb, hps, hus, huE, hKB⟩ := hc
     rw [uread]
     split
     · rename_i e he; rw [hue] at he; cases he
@@ -1059,7 +1080,7 @@ theorem uread_spec (len : Nat) (D0 : ByteArray) : ∀ (fuel : Nat) (r : R2) (acc
         CUnc cap inp off B r1' (D0 ++ (acc ++ chunk)) := by
       intro r1' hr1
       subst hr1
-      refine ⟨hcur, hinp, hue, h0, body, usize, ?_, hol, hdl, hcapH, ?_, hb, hps, hus, huE, ?_⟩
+      refine ⟨hsrc, hcur, hinp, hue, h0, body, usize, ?_, hol, hdl, hcapH, ?_, hb, hps, hus, huE, ?_⟩
       · simp only [hW]
         rw [hsize', hcs]; exact r2
       · simp only [hW]; exact hD'
@@ -1099,9 +1120,9 @@ theorem uread_spec (len : Nat) (D0 : ByteArray) : ∀ (fuel : Nat) (r : R2) (acc
     | eof =>
       show UreadPost cap inp off B r len D0 ({ r' with uErr := some .eof }, acc ++ chunk, .eof)
       obtain ⟨v1, v2, v3⟩ := u4 rfl
-      refine ⟨by simp only; omega, u1, by simp only; exact v1.1, u2, (fun h => by cases h), fun _ => ?_,
+      refine ⟨by simp only; omega, u1, by simp only; exact v1.2.1, u2, (fun h => by cases h), fun _ => ?_,
         (fun e he => by cases he)⟩
-      exact unc_end v1 v2 (by rw [v3]; exact hdr) _ rfl rfl rfl rfl rfl
+      exact unc_end v1 v2 (by rw [v3]; exact hdr) _ rfl rfl rfl rfl rfl rfl
     | err e =>
       show UreadPost cap inp off B r len D0 ({ r' with uErr := some (.err e) }, acc ++ chunk, .err e)
       obtain ⟨v1, v2⟩ := u5 e rfl
@@ -1131,7 +1152,7 @@ theorem lzOut_status {rb : RState} {seq' : SeqState} {kind : ChunkKind} {usize c
 
 theorem lzRead_spec (hcap : 274 ≤ cap) {r : R2} {D0 : ByteArray} (hc : CLz cap inp off B r D0) (len : Nat)
     (hlen : 0 < len) : ChunkPost cap inp off B r len D0 (chunkRead r len) := by
-  obtain ⟨hcur, hinp, hdec, p, usize, startB, R, hg, hKB⟩ := hc
+  obtain ⟨hsrc, hcur, hinp, hdec, p, usize, startB, R, hg, hKB⟩ := hc
   have hr := read_spec R hcap hg len hlen
   unfold chunkRead
   rw [hcur]
@@ -1145,7 +1166,7 @@ theorem lzRead_spec (hcap : 274 ≤ cap) {r : R2} {D0 : ByteArray} (hc : CLz cap
     simp only at hst
     subst hst
     obtain ⟨a1, a2⟩ := q4
-    refine ⟨q2 rfl, Or.inl ⟨rfl, hinp, hdec, p, usize, startB, R, a2, fun hK => ?_⟩, ?_⟩
+    refine ⟨q2 rfl, Or.inl ⟨hsrc, rfl, hinp, hdec, p, usize, startB, R, a2, fun hK => ?_⟩, ?_⟩
     · obtain ⟨rb, seq', kind, csize, hp, body, n, k1, k2, k3, k4, k5, k6, k7, k8⟩ := hKB hK
       exact ⟨rb, seq', kind, csize, hp, body, n, k1, k2, k3, k4, Nat.le_trans a1 k5, k6, k7, k8⟩
     · simp only [R2.srcPos, hcur, if_true]
@@ -1155,7 +1176,7 @@ theorem lzRead_spec (hcap : 274 ≤ cap) {r : R2} {D0 : ByteArray} (hc : CLz cap
     subst hst
     obtain ⟨a1, a2, d, ⟨s1, s2, s3, s4⟩, a4⟩ := q4
     simp only [if_true]
-    refine ⟨⟨hinp, d.h, s1.rel, s1.offle, s1.dsle, s1.cap, ?_, fun hK => ?_⟩, ?_⟩
+    refine ⟨⟨hsrc, hinp, d.h, s1.rel, s1.offle, s1.dsle, s1.cap, ?_, fun hK => ?_⟩, ?_⟩
     · rw [s2, List.take_of_length_le]
       rw [List.length_drop, length_toList]; omega
     · obtain ⟨rb, seq', kind, csize, hp, body, n, k1, k2, k3, k4, k5, k6, k7, k8⟩ := hKB hK
@@ -1221,14 +1242,14 @@ def C2 (cap : Nat) (inp : ByteArray) (off : Nat) (B : RState × Status) (r : R2)
 
 theorem C2.inp_eq {r : R2} {D : ByteArray} (h : C2 cap inp off B r D) : r.inp = inp := by
   rcases h with h | h
-  · exact h.2.1
-  · exact h.2.1
+  · exact h.2.2.1
+  · exact h.2.2.1
 
 theorem chunkRead_spec (hcap : 274 ≤ cap) {r : R2} {D0 : ByteArray} (hc : C2 cap inp off B r D0) (len : Nat)
     (hlen : 0 < len) : ChunkPost cap inp off B r len D0 (chunkRead r len) := by
   rcases hc with hc | hc
   · exact lzRead_spec hcap hc len hlen
-  · have hcur := hc.1
+  · have hcur := hc.2.1
     have he : D0 ++ ByteArray.empty = D0 := ByteArray.append_empty
     have := uread_spec len D0 (len + 3) r ByteArray.empty (by rw [he]; exact hc) hlen
       (by have : ByteArray.empty.size = 0 := rfl
@@ -1452,13 +1473,13 @@ theorem take_eq_of_prefix {W W' : List UInt8} {D : ByteArray} (hp : W <+: W') (h
 theorem C2.pre {r : R2} {D : ByteArray} (hc : C2 cap inp off B r D) : FinPre off B D := by
   intro hK
   rcases hc with hc | hc
-  · obtain ⟨hcur, hinp, hdec, p, usize, startB, R, hg, hKB⟩ := hc
+  · obtain ⟨hsrc, hcur, hinp, hdec, p, usize, startB, R, hg, hKB⟩ := hc
     obtain ⟨rb, seq', kind, csize, hp, body, n, k1, k2, k3, k4, k5, k6, k7, k8⟩ := hKB hK
     have hKR := kR_of_KB hK k1 k3
     have hpre := gtr_prefix k1 hK
     rw [k3, lzOut_state] at hpre
     exact take_eq_of_prefix hpre (by rw [length_toList]; exact GI.off_le hg hKR) (GI.pre hg hKR)
-  · obtain ⟨hcur, hinp, hue, h0, body, usize, hrel, hol, hdl, hcapH, hD, hb, hps, hus, huE, hKB⟩ := hc
+  · obtain ⟨hsrc, hcur, hinp, hue, h0, body, usize, hrel, hol, hdl, hcapH, hD, hb, hps, hus, huE, hKB⟩ := hc
     obtain ⟨rb, seq', kind, hg, hrc, hl⟩ := hKB hK
     have hpre := gtr_prefix hg hK
     rw [hrc, uncOut_state] at hpre
@@ -1509,7 +1530,7 @@ theorem init_spec (cfgCap : Nat) (inp : ByteArray) (pos0 : Nat) (out0 : ByteArra
     show 1 ≤ (if cfgCap = 0 then 8 * 1024 * 1024 else cfgCap)
     split_ifs <;> omega
   have hb : Bnd cap inp out0.size B (r2Init cap inp pos0) ByteArray.empty := by
-    refine ⟨rfl, { out := out0, dictStart := out0.size, cap := cap }, ?_, Nat.le_refl _, Nat.le_refl _, rfl, ?_, ?_⟩
+    refine ⟨rfl, rfl, { out := out0, dictStart := out0.size, cap := cap }, ?_, Nat.le_refl _, Nat.le_refl _, rfl, ?_, ?_⟩
     · simp only [Nat.sub_self]
       have hd : out0.data.toList.drop out0.size = [] := by
         apply List.drop_of_length_le; rw [length_toList]
